@@ -346,10 +346,11 @@ class SymmetryTranslator:
         for subset in largest_subset(symbols):
             if len(subset) <= 1:
                 continue
-            preds: set[Predicate] = set()
+            preds: set[tuple[Predicate, Sign]] = set()
             for lit in subset:
                 symbol = lit.atom.symbol
-                preds.add(Predicate(symbol.name, len(symbol.arguments)))
+                # copies of one literal: same predicate AND same sign ('not p(X)' is no copy of 'p(A)')
+                preds.add((Predicate(symbol.name, len(symbol.arguments)), lit.sign))
             if len(preds) == 1:
                 yield tuple(sorted(subset))
 
